@@ -78,6 +78,8 @@ func C07(c *core.Ctx) {
 		cfg = "SPECIFICATION Spec\nCONSTANTS W0 = 2\n W1 = 2\n Deep = FALSE\n RestAny = TRUE\nINVARIANTS Laws\nCHECK_DEADLOCK FALSE\n"
 	}
 	runs := []struct{ name, cfg string }{{"grammar", cfg}}
+	// one level deeper (a substitution inside a default / replacement / message), single top-level item
+	runs = append(runs, struct{ name, cfg string }{"grammar-nested", "SPECIFICATION Spec\nCONSTANTS W0 = 1\n W1 = 1\n Deep = TRUE\n RestAny = FALSE\nINVARIANTS Laws\nCHECK_DEADLOCK FALSE\n"})
 	if !c.Quick() {
 		runs = append(runs, struct{ name, cfg string }{"grammar-deep", "SPECIFICATION Spec\nCONSTANTS W0 = 1\n W1 = 2\n Deep = TRUE\n RestAny = FALSE\nINVARIANTS Laws\nCHECK_DEADLOCK FALSE\n"})
 	}
